@@ -12,6 +12,7 @@ import (
 	"google.golang.org/protobuf/proto"
 	"google.golang.org/protobuf/types/known/wrapperspb"
 
+	"github.com/smart-core-os/sc-golang/internal/verifhook"
 	"github.com/smart-core-os/sc-golang/pkg/resource"
 	"github.com/smart-core-os/sc-golang/verifharness/lib"
 )
@@ -36,10 +37,23 @@ type odelCase struct {
 	Expect string   `json:"expect"`  // "n" | the WithExpectedValue body
 	AtRead string   `json:"at_read"` // "-" | body
 	World  []string `json:"world"`
+	Via    string   `json:"via"` // where the rivals run: "check" = the call's WithExpectedCheck callback, "hook" = the yield point at the top of every attempt (a Delete without that option)
+}
+
+// odelWindows: goroutine id of a Delete under test -> what runs at its coll.delete.afterRead yield point
+var odelWindows sync.Map
+
+func odelHook(point string) {
+	if point != "coll.delete.afterRead" {
+		return
+	}
+	if w, ok := odelWindows.Load(verifhook.GoID()); ok {
+		w.(func())()
+	}
 }
 
 func (c odelCase) key() string {
-	return fmt.Sprintf("am=%s expect=%s %s>%s", flag(c.AM), c.Expect, c.AtRead, strings.Join(c.World, ">"))
+	return fmt.Sprintf("%s am=%s expect=%s %s>%s", c.Via, flag(c.AM), c.Expect, c.AtRead, strings.Join(c.World, ">"))
 }
 
 func (c odelCase) rivalActs() bool { return len(c.World) > 0 && c.AtRead != "-" }
@@ -204,8 +218,13 @@ func (c odelCase) runCode() (obs odelObs) {
 		}
 		return changed
 	}
-	tookOne := false
-	wopts := []resource.WriteOption{resource.WithExpectedCheck(func(body proto.Message) error {
+	tookOne, inWindow := false, false
+	window := func() {
+		if inWindow { // the rivals' own Deletes pass the yield point on this goroutine too
+			return
+		}
+		inWindow = true
+		defer func() { inWindow = false }()
 		k := obs.Calls
 		obs.Calls++
 		if k < len(c.World) {
@@ -219,8 +238,11 @@ func (c odelCase) runCode() (obs odelObs) {
 		} else {
 			obs.Changed = append(obs.Changed, false)
 		}
-		return nil
-	})}
+	}
+	var wopts []resource.WriteOption
+	if c.Via != "hook" {
+		wopts = append(wopts, resource.WithExpectedCheck(func(body proto.Message) error { window(); return nil }))
+	}
 	if c.AM {
 		wopts = append(wopts, resource.WithAllowMissing(true))
 	}
@@ -228,7 +250,16 @@ func (c odelCase) runCode() (obs odelObs) {
 		wopts = append(wopts, resource.WithExpectedValue(storedMsg(c.Expect)))
 	}
 	var ret proto.Message
-	ok, err := timedCall(pipeWait, func() error { var err error; ret, err = col.Delete(id, wopts...); return err })
+	ok, err := timedCall(pipeWait, func() error {
+		if c.Via == "hook" {
+			gid := verifhook.GoID()
+			odelWindows.Store(gid, window)
+			defer odelWindows.Delete(gid)
+		}
+		var err error
+		ret, err = col.Delete(id, wopts...)
+		return err
+	})
 	if !ok {
 		obs.Stuck = "the overtaken delete did not return"
 		return obs
@@ -277,19 +308,22 @@ func (c odelCase) runCode() (obs odelObs) {
 		s := obs.Streams[name]
 		return len(s) > 0 && strings.HasPrefix(s[len(s)-1], fence)
 	}
-	for i := 0; i < 24 && !fenced("slow~odd", "odd"); i++ {
-		if !slowRecv(400 * time.Millisecond) {
+	for i := 0; i < 40 && !fenced("slow~odd", "odd"); i++ {
+		if !slowRecv(pipeWait) {
 			break
 		}
 	}
-	waitFor(pipeWait, func() bool {
+	allFenced := func() bool {
 		for _, s := range odelSubs {
-			if !s.slow && !fenced(s.name, s.include) {
+			if !fenced(s.name, s.include) {
 				return false
 			}
 		}
 		return true
-	})
+	}
+	if !waitFor(pipeWait, allFenced) {
+		obs.Stuck = "a subscriber did not get its fence"
+	}
 	obs.Held = "-"
 	if msg, ok := col.Get(id); ok {
 		obs.Held = storedTok(msg)
@@ -388,11 +422,14 @@ func (c odelCase) monitor(m *lib.Monitor, obs odelObs) {
 func genOdelCases() []odelCase {
 	var cases []odelCase
 	add := func(am bool, expect, atRead string, world ...string) {
-		cases = append(cases, odelCase{Kind: "odel", AM: am, Expect: expect, AtRead: atRead, World: append([]string{}, world...)})
+		for _, via := range []string{"check", "hook"} {
+			cases = append(cases, odelCase{Kind: "odel", AM: am, Expect: expect, AtRead: atRead, World: append([]string{}, world...), Via: via})
+		}
 	}
 	for _, am := range []bool{false, true} {
 		add(am, "n", "-")
 		add(am, "1", "-")
+		add(am, "n", "-", "1") // through the yield point a rival creates the item the call has already found absent
 	}
 	var worlds [][]string
 	worlds = append(worlds, nil)
@@ -427,9 +464,11 @@ func genOdelCases() []odelCase {
 
 func runOvertakenDelete(f lib.Flags, res *lib.Result, drv *lib.Driver) {
 	tie := res.Tie("overtaken-delete-event", "K2",
-		"the model's deleteCall (DeleteRetry.lean, driver op dcommit) vs the REAL resource.Collection.Delete with the rival writers placed in the call's own WithExpectedCheck callback (run by the code between its read and its write lock, once per attempt; no hooks, no timing): the item at the optimistic read over the empty message and two values x what the rivals of attempt 0, 1, … leave stored (nothing at all; every single step over removed / the empty message / two values / the SAME body rewritten / removed-and-added-again; every pair of such steps; up to six windows in a row) x no / the first / the last body as WithExpectedValue x WithAllowMissing; compared: NotFound / nil / FailedPrecondition with the returned body / Unavailable, or the REMOVE a subscriber with backpressure gets (old value), the returned body and the number of attempts; non-trivial = a rival acted; distinct = the case")
+		"the model's deleteCall (DeleteRetry.lean, driver op dcommit) vs the REAL resource.Collection.Delete with the rival writers placed in the call's own WithExpectedCheck callback (run by the code between its read and its write lock, once per attempt; no timing) and, for a Delete WITHOUT that option, at the yield point at the top of every attempt (same window; run on the deleting goroutine): the item at the optimistic read over the empty message and two values x what the rivals of attempt 0, 1, … leave stored (nothing at all; every single step over removed / the empty message / two values / the SAME body rewritten / removed-and-added-again; every pair of such steps; up to six windows in a row) x no / the first / the last body as WithExpectedValue x WithAllowMissing; compared: NotFound / nil / FailedPrecondition with the returned body / Unavailable, or the REMOVE a subscriber with backpressure gets (old value), the returned body and the number of attempts; non-trivial = a rival acted; distinct = the case")
 	tie.Exhaustive = true
 	mon := res.Monitor("overtaken-delete", "on the same runs, independent of the model: an overtaken Delete that goes through announces and returns the body stored when it committed (= what the rivals left), passes a WithExpectedValue only for that body, gives up with Unavailable only after five overtaken attempts, and an undisturbed one is decided by the item as it is; five subscribers (backpressure unfiltered / include odd, lossy keeping up unfiltered / include even, lossy include odd that is BEHIND from before the delete on): every stream chains per id at the subscriber's own filtered view, carries admitted values only and, after a fence, folds to what the collection holds as the filter admits it; distinct = the case; non-trivial = a rival acted")
+	verifhook.Set(odelHook)
+	defer verifhook.Set(nil)
 	cases := genOdelCases()
 	lines := make([]string, len(cases))
 	for i, c := range cases {
